@@ -26,18 +26,25 @@ RULE = ("two case kinds. params: a parameter class of draw_params.py (MPDrawPara
         "lanelets, planning problems, traffic signs. Positions, orientations and velocities of obstacle states are exact "
         "or uncertain (shape / interval). "
         "non-trivial = every case; distinct = distinct canonical JSON of the case")
-ASSUMPTIONS = ["matplotlib patch objects keep the vertex arrays / centre / width / height they were constructed with "
+ASSUMPTIONS = ["clause (b) is stated for time windows time_begin <= time_end; an inverted window is outside the quantifier "
+               "(C19_witness_inverted_window, corpus/C19/witness_inverted_window.json; counted as excluded by the oracle)",
+               "set-based predictions have at least one occupancy (XSD); an empty one makes final_time_step raise "
+               "(C19_witness_empty_set_prediction, corpus/C19/outside_empty_set_prediction.json: model and code fail alike)",
+               "assigned parameter-group values do not contain a group declaring the assigned name (true for all type-correct "
+               "values); otherwise Python raises RecursionError, modelled by Grp.setPy and replayed, no verdict "
+               "(corpus/C19/outside_self_referential_assignment.json)",
+               "matplotlib patch objects keep the vertex arrays / centre / width / height they were constructed with "
                "(Polygon.get_xy, Ellipse.center/width/height, PolyCollection.get_paths)",
-               "totality of draw/render/rasterisation (Agg) is explored, not proved (C19_total_partial)",
+               "totality of draw/render/rasterisation (Agg) is explored, not proved; proved only for the selection logic with explicit partial reads (C19_total_selection_partial, C19_total_net_partial, C19_total_light_labels_partial)",
                "Python shares a parameter group assigned to several fields, the Lean tree copies it: histories continue only "
                "at ancestors of a group-valued assignment"]
 TRUSTED = ["harness expansion of model items to shapes uses the implementation's own occupancy_at_time / state_at_time_step "
            "(the model selects *which* occupancy is drawn, not its geometry)"]
 REQUIRED_BUCKETS = ["params:ctor-window", "params:top-level", "params:nested", "params:group-value", "params:deeper-only",
-                    "params:not-declared", "params:window", "draw:plain", "draw:lattice", "window:before", "window:inside",
+                    "params:not-declared", "params:window", "params:self-referential", "draw:plain", "draw:lattice", "window:before", "window:inside",
                     "window:after", "window:tb=te", "obst:static", "obst:dyn-none", "obst:dyn-traj", "obst:dyn-set",
                     "obst:phantom", "obst:env", "obst:uncertain-init", "lanelets:all", "lanelets:subset", "lanelets:none-selected",
-                    "problems:filtered", "raster", "renderer-reused", "set-based-later-steps", "hidden-by-guard", "icon", "history"]
+                    "problems:filtered", "raster", "renderer-reused", "outside-quantifier", "anchor:center", "reading:mid", "border-vertices", "light-labels", "set-based-later-steps", "hidden-by-guard", "icon", "history"]
 WORKERS = {"quick": 1, "thorough": 8}
 
 PRIV = "_BaseParam__initialized"
@@ -175,6 +182,13 @@ def gen_params_case(ctx):
         own = [k for k, _, _, _ in sch[cls]]
         deeper = sorted({n for n in all_names if declares_deep(cls, n) and n not in own})
         mode = r.choice(["own", "own", "window", "deeper", "deeper", "elsewhere", "bogus"])
+        if allowed is None and r.random() < 0.08:
+            # self-referential assignment: a group inside the value declares the assigned name (type-incorrect, outside
+            # the property's quantifier; Python answers RecursionError as soon as the value is stored anywhere). Ends the history.
+            name = r.choice(sorted(n for n, ks in kinds.items() if any(c == "group" for c, _ in ks)))
+            holders = sorted(c for c in sch if declares_deep(c, name))
+            ops.append([list(path), name, {"g": r.choice(holders), "kw": {}}])
+            break
         if mode == "own" or (mode == "deeper" and not deeper):
             name = r.choice(own)
         elif mode == "window":
@@ -269,8 +283,18 @@ def run_params_case(ctx, case, model=True):
             ctx.tag("params:not-declared")
         if name in ("time_begin", "time_end"):
             ctx.tag("params:window")
-        before = {p: {k: x for k, x in pub(h)} for p, h in walk_groups(target)}
+        selfref = is_group and declares_deep(type(val).__name__, name)
         res = call(setattr, target, name, val)
+        if selfref:
+            # outside the property's quantifier: only the correspondence (RecursionError <-> CR.Params.Grp.setPy) is checked;
+            # the objects are cyclic after the error, so the history ends here
+            ctx.tag("params:self-referential")
+            trees_in.append([path, name, spec_tree(v)])
+            if res[0] != "ok":
+                impl.append({"err": res[1]})
+                break
+            impl.append({"ok": dump(root)})
+            continue
         if res[0] != "ok":
             ctx.fail(f"C19/params.setattr/raises-{res[1]}", f"setattr({'.'.join(path) or 'root'}, {name!r}, …) raises {res[2]}", sub)
             impl.append({"err": res[1]})
@@ -343,7 +367,8 @@ def patch_canon(p):
         return poly(p.get_xy())
     if isinstance(p, mp.Ellipse):
         return ["ell", canon(p.center), canon(p.width), canon(p.height)]
-    return ["other", type(p).__name__]
+    # any other patch (icon parts, path patches): its outline in data coordinates
+    return ["path", type(p).__name__, canon(p.get_patch_transform().transform(p.get_path().vertices))]
 
 
 def walk_fields(g, path=()):
@@ -420,7 +445,9 @@ def gen_draw_case(ctx):
             for k in r.sample(["draw_icon", "draw_history", "draw_occupancies", "draw_direction", "draw_initial_state",
                                "draw_signals", "draw_continuous", "draw_trajectory", "show_label", "draw_arrow"], r.choice([1, 2, 4])):
                 sets.append([r.choice([[], ["dynamic_obstacle"]]), k, {"v": True}])
-        for k, pr in (("draw_icon", 0.6 if focus else 0.2), ("draw_history", 0.3), ("draw_occupancies", 0.2)):
+        for k, pr in (("draw_icon", 0.6 if focus else 0.2), ("draw_history", 0.3), ("draw_occupancies", 0.2),
+                      ("show_label", 0.5 if focus else 0.0), ("draw_initial_state", 0.5 if focus else 0.0),
+                      ("draw_arrow", 0.4 if focus else 0.0)):
             if r.random() < pr:
                 sets.append([[], k, {"v": True}])
     else:
@@ -468,7 +495,7 @@ def describe(o, lo, hi):
     from commonroad.visualization.icons import supported_icons
     no = {"all": False, "ts": []}
     d = {"init": 0, "pred": {"kind": "none"}, "uncInit": False, "stateAt": no, "uncAt": no, "sigAt": no, "rectAt": no,
-         "iconType": False, "hasLW": False}
+         "iconType": False, "hasLW": False, "orientIntInit": False, "velIntInit": False, "orientIntAt": no, "velIntAt": no}
     rng = range(lo, hi + 1)
     if isinstance(o, EnvironmentObstacle):
         d.update(role="env", occ={"all": True, "ts": []})
@@ -478,6 +505,8 @@ def describe(o, lo, hi):
         return d
     d["init"] = o.initial_state.time_step
     d["uncInit"] = bool(o.initial_state.is_uncertain_position)
+    d["orientIntInit"] = isinstance(getattr(o.initial_state, "orientation", None), Interval)
+    d["velIntInit"] = isinstance(getattr(o.initial_state, "velocity", None), Interval)
     d["sigAt"] = {"all": False, "ts": [t for t in rng if o.signal_state_at_time_step(t) is not None]}
     if isinstance(o, StaticObstacle):
         d.update(role="static", occ={"all": True, "ts": []})
@@ -495,9 +524,16 @@ def describe(o, lo, hi):
         st = {t: p.trajectory.state_at_time_step(t) for t in rng}
         d["stateAt"] = {"all": False, "ts": [t for t in rng if st[t] is not None]}
         d["uncAt"] = {"all": False, "ts": [t for t in rng if st[t] is not None and st[t].is_uncertain_position]}
+        d["orientIntAt"] = {"all": False, "ts": [t for t in rng if st[t] is not None
+                                                 and isinstance(getattr(st[t], "orientation", None), Interval)]}
+        d["velIntAt"] = {"all": False, "ts": [t for t in rng if st[t] is not None
+                                              and isinstance(getattr(st[t], "velocity", None), Interval)]}
     elif isinstance(p, SetBasedPrediction):
-        f = p.final_time_step
-        d["pred"] = {"kind": "set", "final": int(f.end) if isinstance(f, Interval) else f}
+        if not p.occupancy_set:
+            d["pred"] = {"kind": "set-empty"}
+        else:
+            f = p.final_time_step
+            d["pred"] = {"kind": "set", "final": int(f.end) if isinstance(f, Interval) else f}
     return d
 
 
@@ -508,7 +544,7 @@ def read_flags(p):
                     "draw_occupancies": dy.occupancy.draw_occupancies, "draw_trajectory": dy.trajectory.draw_trajectory,
                     "draw_history": dy.history.draw_history, "hist_steps": dy.history.steps,
                     "hist_step_size": dy.history.step_size, "draw_initial_state": dy.draw_initial_state,
-                    "show_label": dy.show_label, "traj_tb": dy.trajectory.time_begin, "traj_te": dy.trajectory.time_end,
+                    "show_label": dy.show_label, "state_arrow": dy.state.draw_arrow, "traj_tb": dy.trajectory.time_begin, "traj_te": dy.trajectory.time_end,
                     "traj_continuous": dy.trajectory.draw_continuous},
             "ph": {"tb": ph.time_begin, "te": ph.time_end, "draw_shape": ph.draw_shape,
                    "draw_occupancies": ph.occupancy.draw_occupancies},
@@ -516,6 +552,28 @@ def read_flags(p):
 
 
 ANY = ["any"]
+
+
+def marker_state(o, p):
+    """The state the icon is placed at (mp_renderer.py:563-566)."""
+    tb = p.dynamic_obstacle.time_begin
+    return o.initial_state if tb == o.initial_state.time_step else o.prediction.trajectory.state_at_time_step(tb)
+
+
+def label_state(o, p):
+    """The state of lines 622-627 (label, state marker): the initial state iff time_begin == 0."""
+    tb = p.dynamic_obstacle.time_begin
+    return o.initial_state if tb == 0 else o.prediction.trajectory.state_at_time_step(tb)
+
+
+def anchor(st, how):
+    """The point the model selected: the position array itself ("exact") or the centre of the position shape ("center")."""
+    return st.position.center if how == "center" else st.position
+
+
+def reading(x, how):
+    """The number the model selected: the value itself ("exact") or the centre of the interval ("mid")."""
+    return 0.5 * (x.start + x.end) if how == "mid" else x
 
 
 def expand(item, o, p):
@@ -532,15 +590,31 @@ def expand(item, o, p):
     if k == "dir":
         return [poly(get_vehicle_direction_triangle(o.occupancy_at_time(p.dynamic_obstacle.time_begin).shape))]
     if k == "icon":
-        return [ANY] * len(get_obstacle_icon_patch(o.obstacle_type, 0.0, 0.0, 0.0, o.obstacle_shape.length,
-                                                   o.obstacle_shape.width))
+        st = marker_state(o, p)
+        dy = p.dynamic_obstacle
+        return [patch_canon(x) for x in get_obstacle_icon_patch(
+            o.obstacle_type, anchor(st, item[1])[0], anchor(st, item[1])[1], reading(st.orientation, item[2]),
+            vehicle_length=o.obstacle_shape.length, vehicle_width=o.obstacle_shape.width,
+            vehicle_color=dy.vehicle_shape.occupancy.shape.facecolor, edgecolor=dy.vehicle_shape.occupancy.shape.edgecolor,
+            zorder=dy.zorder, opacity=dy.opacity)]
     if k == "sig":
         tb = p.dynamic_obstacle.time_begin
         return [ANY] * signal_count(o.signal_state_at_time_step(tb), o.occupancy_at_time(tb).shape)
     if k == "trajLine":
         return [ANY]
     if k == "state":
-        return [ANY] * (2 if p.dynamic_obstacle.state.draw_arrow else 1)
+        import math
+        import matplotlib.patches as mp
+        sp = p.dynamic_obstacle.state
+        st = label_state(o, p)
+        pos = anchor(st, item[1])
+        out = [patch_canon(mp.Circle(pos, radius=sp.radius))]
+        if item[2] is not None:
+            ori, vel = reading(st.orientation, item[2][0]), reading(st.velocity, item[2][1])
+            ln = max(vel, 3.0 / sp.scale_factor)
+            out.append(patch_canon(mp.FancyArrow(x=pos[0], y=pos[1], dx=ln * math.cos(ori) * sp.scale_factor,
+                                                 dy=ln * math.sin(ori) * sp.scale_factor, width=sp.arrow.width)))
+        return out
     if k == "label":
         return []
     raise ValueError(k)
@@ -577,126 +651,32 @@ def fail_exc(ctx, stage, e, case):
         pass
 
 
-def run_draw_case(ctx, case, model=True):
-    import matplotlib.collections as mcoll
-    import matplotlib.text as mtext
+def model_draw(ctx, p, obstacles):
+    """The selection model's answer for this parameter object and these obstacles: the tree goes in, `flagsOf` reads it."""
+    fl = read_flags(p)
+    times = [fl["dyn"]["tb"], fl["dyn"]["te"], fl["dyn"]["traj_tb"], fl["dyn"]["traj_te"], fl["ph"]["tb"], fl["ph"]["te"]]
+    hist = max(0, fl["dyn"]["hist_steps"]) * abs(fl["dyn"]["hist_step_size"])
+    lo, hi = min(times) - hist - 2, max(times) + 2
+    return ctx.driver.ask("C19", "draw_tree", {"tree": dump(p), "obstacles": [describe(o, lo, hi) for o in obstacles]})
+
+
+def light_texts(ax):
+    """Texts of all TextArea boxes inside the annotation boxes of the axes (traffic-light / sign labels)."""
+    from matplotlib.offsetbox import AnnotationBbox, OffsetBox, TextArea
+
+    def texts(box):
+        out = [box.get_text()] if isinstance(box, TextArea) else []
+        for c in box.get_children():
+            if isinstance(c, OffsetBox):
+                out.extend(texts(c))
+        return out
+    return sorted(t for a in ax.get_children() if isinstance(a, AnnotationBbox) for t in texts(a.offsetbox))
+
+
+def prescribed_shapes(ctx, obstacles, tb, te):
+    """The property text evaluated on the obstacles' own query methods: shapes that must be drawn / may be drawn in addition."""
     from commonroad.prediction.prediction import SetBasedPrediction
-    from commonroad.scenario.obstacle import DynamicObstacle, EnvironmentObstacle, PhantomObstacle, StaticObstacle
-    from commonroad.visualization.mp_renderer import MPRenderer
-    ctx.case(case)
-    tb, te, mode = case["tb"], case["te"], case["mode"]
-    sc, pps = B.mk_scenario(case), B.mk_pps(case)
-    ax = get_ax()
-    try:
-        p = B.mk_params(case["params"])
-    except Exception as e:  # noqa
-        return fail_exc(ctx, "params", e, case)
-    obstacles = sc.obstacles
-    ctx.tag("draw:" + mode)
-    for o in obstacles:
-        if isinstance(o, StaticObstacle):
-            ctx.tag("obst:static")
-        elif isinstance(o, EnvironmentObstacle):
-            ctx.tag("obst:env")
-        elif isinstance(o, PhantomObstacle):
-            ctx.tag("obst:phantom")
-        else:
-            pr = o.prediction
-            ctx.tag("obst:dyn-none" if pr is None else "obst:dyn-set" if isinstance(pr, SetBasedPrediction) else "obst:dyn-traj")
-            lo_, hi_ = o.initial_state.time_step, (pr.final_time_step if pr is not None else o.initial_state.time_step)
-            hi_ = int(getattr(hi_, "end", hi_))
-            ctx.tag("window:before" if tb < lo_ else "window:after" if tb > hi_ else "window:inside")
-        if not isinstance(o, (PhantomObstacle, EnvironmentObstacle)) and o.initial_state.is_uncertain_position:
-            ctx.tag("obst:uncertain-init")
-    if tb == te:
-        ctx.tag("window:tb=te")
-    # ------------------------------------------------------------------ draw (scenario), observe, draw (problems), render
-    rnd = MPRenderer(ax=ax)
-    if case.get("reuse"):
-        # the same renderer has already drawn and rendered another time step (as create_video does frame by frame)
-        ctx.tag("renderer-reused")
-        try:
-            p0 = B.mk_params(case["params"])
-            p0.time_begin = tb + 1
-            p0.time_end = te + 1
-            sc.draw(rnd, p0)
-            pps.draw(rnd, p0)
-            rnd.render()
-        except Exception as e:  # noqa
-            return fail_exc(ctx, "draw_render_previous_frame", e, case)
-    try:
-        sc.draw(rnd, p)
-    except Exception as e:  # noqa
-        return fail_exc(ctx, "draw_scenario", e, case)
-    patches = [patch_canon(x) for x in rnd.obstacle_patches]
-    n_labels = len(rnd.dynamic_labels)
-    fills = [poly(pa.vertices) for c in rnd.static_collections if isinstance(c, mcoll.PolyCollection) for pa in c.get_paths()]
-    n_static = len(rnd.static_artists)
-    try:
-        pps.draw(rnd, p)
-    except Exception as e:  # noqa
-        return fail_exc(ctx, "draw_planning_problem_set", e, case)
-    annos = [canon(list(a.xy)) for a in rnd.static_artists[n_static:] if isinstance(a, mtext.Annotation)]
-    try:
-        rnd.render()
-    except Exception as e:  # noqa
-        return fail_exc(ctx, "render", e, case)
-    if case.get("raster"):
-        ctx.tag("raster")
-        try:
-            ax.figure.canvas.draw()
-        except Exception as e:  # noqa
-            return fail_exc(ctx, "rasterize", e, case)
-    # ------------------------------------------------------------------ correspondence with the selection model
-    net = sc.lanelet_network
-    lids = [l.lanelet_id for l in net.lanelets]
-    draw_ids = p.lanelet_network.draw_ids
-    fill_on = p.lanelet_network.lanelet.fill_lanelet
-    by_poly = {json.dumps(lanelet_poly(l)): l.lanelet_id for l in net.lanelets}
-    drawn_ids = sorted(by_poly.get(json.dumps(f), -1) for f in fills)
-    pp_ids = list(pps.planning_problem_dict.keys())
-    pp_sel = p.planning_problem_set.draw_ids
-    if model:
-        fl = read_flags(p)
-        times = [fl["dyn"]["tb"], fl["dyn"]["te"], fl["dyn"]["traj_tb"], fl["dyn"]["traj_te"], fl["ph"]["tb"], fl["ph"]["te"]]
-        hist = max(0, fl["dyn"]["hist_steps"]) * abs(fl["dyn"]["hist_step_size"])
-        lo, hi = min(times) - hist - 2, max(times) + 2
-        desc = [describe(o, lo, hi) for o in obstacles]
-        items = ctx.driver.ask("C19", "draw", {"flags": fl, "obstacles": desc})
-        expected, labels = [], 0
-        for o, its in zip(obstacles, items):
-            for it in its:
-                ctx.tag({"icon": "icon", "hist": "history"}.get(it[0], "item:" + it[0]))
-                labels += it[0] == "label"
-                expected.extend(expand(it, o, p))
-        got = [ANY if i < len(expected) and expected[i] == ANY else x for i, x in enumerate(patches)]
-        ctx.compare(case, {"patches": got, "labels": n_labels}, {"patches": expected, "labels": labels},
-                    "MPRenderer.obstacle_patches after draw_scenario vs CR.Draw.drawScenario")
-        if fill_on:
-            m = ctx.driver.ask("C19", "lanelets", {"ids": lids, "draw_ids": draw_ids})
-            ctx.compare(case, drawn_ids, sorted(m), "filled lanelet polygons vs CR.Draw.laneletsDrawn")
-        m = ctx.driver.ask("C19", "problems", {"ids": pp_ids, "draw_ids": pp_sel})
-        exp_xy = [canon([pps.planning_problem_dict[i].initial_state.position[0] + 1,
-                         pps.planning_problem_dict[i].initial_state.position[1]]) for i in m]
-        ctx.compare(case, annos, exp_xy, "planning-problem annotations vs CR.Draw.problemsDrawn")
-    # ------------------------------------------------------------------ oracle: the property statement itself
-    if fill_on:
-        want = sorted(lids if draw_ids is None else [i for i in lids if i in draw_ids])
-        ctx.tag("lanelets:all" if draw_ids is None else "lanelets:none-selected" if not want else "lanelets:subset")
-        if drawn_ids != want:
-            ctx.fail("C19/draw_lanelet_network/wrong-lanelets",
-                     f"lanelets {lids}, draw_ids={draw_ids}: filled lanelets drawn {drawn_ids}, expected {want}", case)
-    if pp_sel is not None:
-        ctx.tag("problems:filtered")
-    want_pp = [i for i in pp_ids if pp_sel is None or i in pp_sel]
-    if len(annos) != len(want_pp):
-        ctx.fail("C19/draw_planning_problem_set/wrong-problems",
-                 f"planning problems {pp_ids}, draw_ids={pp_sel}: {len(annos)} drawn, expected {want_pp}", case)
-    if mode != "plain":
-        return
-    if te < tb:
-        ctx.excluded += 1
-        return
+    from commonroad.scenario.obstacle import DynamicObstacle, PhantomObstacle, StaticObstacle
     required, allowed = [], []
     for o in obstacles:
         occ = o.occupancy_at_time(tb)
@@ -723,6 +703,175 @@ def run_draw_case(ctx, case, model=True):
             allowed.extend(flat(o.initial_state.position))  # the uncertain initial position is drawn with the shape
         if isinstance(o, DynamicObstacle) and not here and not later:
             ctx.tag("hidden-by-guard")
+    return required, allowed
+
+
+def run_draw_case(ctx, case, model=True):
+    import matplotlib.collections as mcoll
+    import matplotlib.text as mtext
+    from commonroad.prediction.prediction import SetBasedPrediction
+    from commonroad.scenario.obstacle import DynamicObstacle, EnvironmentObstacle, PhantomObstacle, StaticObstacle
+    from commonroad.visualization.mp_renderer import MPRenderer
+    ctx.case(case)
+    tb, te, mode = case["tb"], case["te"], case["mode"]
+    sc, pps = B.mk_scenario(case), B.mk_pps(case)
+    ax = get_ax()
+    try:
+        p = B.mk_params(case["params"])
+    except Exception as e:  # noqa
+        return fail_exc(ctx, "params", e, case)
+    obstacles = sc.obstacles
+    ctx.tag("draw:" + mode)
+    for o in obstacles:
+        if isinstance(o, StaticObstacle):
+            ctx.tag("obst:static")
+        elif isinstance(o, EnvironmentObstacle):
+            ctx.tag("obst:env")
+        elif isinstance(o, PhantomObstacle):
+            ctx.tag("obst:phantom")
+        else:
+            pr = o.prediction
+            ctx.tag("obst:dyn-none" if pr is None else "obst:dyn-set" if isinstance(pr, SetBasedPrediction) else "obst:dyn-traj")
+            lo_ = o.initial_state.time_step
+            hi_ = pr.final_time_step if pr is not None and not case.get("outside") else lo_
+            hi_ = int(getattr(hi_, "end", hi_))
+            ctx.tag("window:before" if tb < lo_ else "window:after" if tb > hi_ else "window:inside")
+        if not isinstance(o, (PhantomObstacle, EnvironmentObstacle)) and o.initial_state.is_uncertain_position:
+            ctx.tag("obst:uncertain-init")
+    if tb == te:
+        ctx.tag("window:tb=te")
+    # every coverage bucket is decided by the case and the model, before the implementation draws anything
+    net = sc.lanelet_network
+    lids = [l.lanelet_id for l in net.lanelets]
+    draw_ids = p.lanelet_network.draw_ids
+    fill_on = p.lanelet_network.lanelet.fill_lanelet
+    pp_sel = p.planning_problem_set.draw_ids
+    if fill_on:
+        want = sorted(lids if draw_ids is None else [i for i in lids if i in draw_ids])
+        ctx.tag("lanelets:all" if draw_ids is None else "lanelets:none-selected" if not want else "lanelets:subset")
+    if pp_sel is not None:
+        ctx.tag("problems:filtered")
+    if case.get("raster"):
+        ctx.tag("raster")
+    if case.get("reuse"):
+        ctx.tag("renderer-reused")
+    if p.lanelet_network.lanelet.draw_border_vertices:
+        ctx.tag("border-vertices")
+    prescribed = prescribed_shapes(ctx, obstacles, tb, te) if mode == "plain" and te >= tb and not case.get("outside") else None
+    tl = p.lanelet_network.traffic_light
+    light_labels = bool(tl.draw_traffic_lights and not p.lanelet_network.traffic_sign.draw_traffic_signs and net.traffic_lights)
+    if light_labels:
+        ctx.tag("light-labels")
+    res = None
+    if model and not case.get("outside"):
+        res = model_draw(ctx, p, obstacles)
+        for its in (res or {}).get("ok", []):
+            for it in its:
+                ctx.tag({"icon": "icon", "hist": "history"}.get(it[0], "item:" + it[0]))
+                if it[0] in ("label", "icon", "state") and it[1] == "center":
+                    ctx.tag("anchor:center")
+                if it[0] in ("icon", "state") and "mid" in json.dumps(it):
+                    ctx.tag("reading:mid")
+    # ------------------------------------------------------------------ draw (scenario), observe, draw (problems), render
+    rnd = MPRenderer(ax=ax)
+    if case.get("reuse"):
+        # the same renderer has already drawn and rendered another time step (as create_video does frame by frame)
+        try:
+            p0 = B.mk_params(case["params"])
+            p0.time_begin = tb + 1
+            p0.time_end = te + 1
+            sc.draw(rnd, p0)
+            pps.draw(rnd, p0)
+            rnd.render()
+        except Exception as e:  # noqa
+            return fail_exc(ctx, "draw_render_previous_frame", e, case)
+    try:
+        sc.draw(rnd, p)
+    except Exception as e:  # noqa
+        if case.get("outside"):
+            # an input outside the property's quantifier (named in the case): no verdict, but the model of the partial
+            # reads (CR.Draw.drawScenarioC) must fail in the same way
+            ctx.tag("outside-quantifier")
+            if model:
+                ctx.compare(case, {"err": err_class(e)}, model_draw(ctx, p, obstacles),
+                            f"draw_scenario on an input outside the quantifier ({case['outside']}) vs CR.Draw.drawScenarioC")
+            get_ax().cla()
+            return
+        return fail_exc(ctx, "draw_scenario", e, case)
+    patches = [patch_canon(x) for x in rnd.obstacle_patches]
+    labels_obs = [[canon(t.get_position()[0]), canon(t.get_position()[1]), t.get_text()] for t in rnd.dynamic_labels]
+    n_border = sum(isinstance(c, mcoll.EllipseCollection) for c in rnd.static_collections)
+    fills = [poly(pa.vertices) for c in rnd.static_collections if isinstance(c, mcoll.PolyCollection) for pa in c.get_paths()]
+    n_static = len(rnd.static_artists)
+    try:
+        pps.draw(rnd, p)
+    except Exception as e:  # noqa
+        return fail_exc(ctx, "draw_planning_problem_set", e, case)
+    annos = [canon(list(a.xy)) for a in rnd.static_artists[n_static:] if isinstance(a, mtext.Annotation)]
+    try:
+        rnd.render()
+    except Exception as e:  # noqa
+        return fail_exc(ctx, "render", e, case)
+    texts_obs = light_texts(ax)
+    if case.get("raster"):
+        try:
+            ax.figure.canvas.draw()
+        except Exception as e:  # noqa
+            return fail_exc(ctx, "rasterize", e, case)
+    # ------------------------------------------------------------------ correspondence with the selection model
+    by_poly = {json.dumps(lanelet_poly(l)): l.lanelet_id for l in net.lanelets}
+    drawn_ids = sorted(by_poly.get(json.dumps(f), -1) for f in fills)
+    pp_ids = list(pps.planning_problem_dict.keys())
+    if model:
+        ctx.compare(case, read_flags(p), ctx.driver.ask("C19", "flags_of", {"tree": dump(p)}),
+                    "flags and windows read by the drawing functions vs CR.Draw.flagsOf")
+        expected, labels = [], []
+        for o, its in zip(obstacles, (res or {}).get("ok", [])):
+            for it in its:
+                if it[0] == "label":
+                    pos = anchor(label_state(o, p), it[1])
+                    labels.append([canon(pos[0] + 0.5), canon(pos[1]), str(o.obstacle_id)])
+                expected.extend(expand(it, o, p))
+        got = [ANY if i < len(expected) and expected[i] == ANY else x for i, x in enumerate(patches)]
+        ctx.compare(case, {"ok": True, "patches": got, "labels": labels_obs},
+                    {"ok": res is not None and "ok" in res, "patches": expected, "labels": labels},
+                    "MPRenderer.obstacle_patches / dynamic_labels after draw_scenario vs CR.Draw.drawScenarioC ∘ flagsOf")
+        ll = p.lanelet_network.lanelet
+        m = ctx.driver.ask("C19", "net", {
+            "lanelets": [{"id": l.lanelet_id, "left_border": l.adj_left is None or not l.adj_left_same_direction}
+                         for l in net.lanelets],
+            "draw_ids": draw_ids, "border_vertices": ll.draw_border_vertices, "left_bound": ll.draw_left_bound,
+            "right_bound": ll.draw_right_bound})
+        ctx.compare(case, {"ok": n_border}, {"ok": m["ok"]["border_collections"]} if "ok" in m else m,
+                    "border-vertex EllipseCollections vs CR.Draw.drawNetC")
+        if light_labels:
+            m = ctx.driver.ask("C19", "lights", {"show_label": tl.show_label, "lights": [
+                {"has_position": x.position is not None, "active": bool(x.active),
+                 "state": str(x.get_state_at_time_step(tl.time_begin).value) if x.active else ""} for x in net.traffic_lights]})
+            ctx.compare(case, {"ok": texts_obs}, {"ok": sorted(m["ok"])} if "ok" in m else m,
+                        "traffic-light label texts after render vs CR.Draw.lightLabelsC")
+        if fill_on:
+            m = ctx.driver.ask("C19", "lanelets", {"ids": lids, "draw_ids": draw_ids})
+            ctx.compare(case, drawn_ids, sorted(m), "filled lanelet polygons vs CR.Draw.laneletsDrawn")
+        m = ctx.driver.ask("C19", "problems", {"ids": pp_ids, "draw_ids": pp_sel})
+        exp_xy = [canon([pps.planning_problem_dict[i].initial_state.position[0] + 1,
+                         pps.planning_problem_dict[i].initial_state.position[1]]) for i in m]
+        ctx.compare(case, annos, exp_xy, "planning-problem annotations vs CR.Draw.problemsDrawn")
+    # ------------------------------------------------------------------ oracle: the property statement itself
+    if fill_on:
+        if drawn_ids != want:
+            ctx.fail("C19/draw_lanelet_network/wrong-lanelets",
+                     f"lanelets {lids}, draw_ids={draw_ids}: filled lanelets drawn {drawn_ids}, expected {want}", case)
+    want_pp = [i for i in pp_ids if pp_sel is None or i in pp_sel]
+    if len(annos) != len(want_pp):
+        ctx.fail("C19/draw_planning_problem_set/wrong-problems",
+                 f"planning problems {pp_ids}, draw_ids={pp_sel}: {len(annos)} drawn, expected {want_pp}", case)
+    if mode != "plain":
+        return
+    if te < tb:
+        ctx.excluded += 1
+        return
+    required, allowed = prescribed
     extra, missing = multiset_sub(patches, required)
     if missing:
         ctx.fail("C19/draw_scenario/occupancy-not-drawn",
